@@ -416,7 +416,7 @@ func VfC19_Batch() {
 
 // two overlapping batches on ONE transport value
 func VfC19_TwoBatches() {
-	vfThreads(vfParam("preempt", 2))
+	vfThreads(vfParam("preempt2", vfParam("preempt", 2)))
 	w, t := vfC19New()
 	w.simple = true
 	n := vfParam("rcpts2", 1)
